@@ -1,4 +1,5 @@
 import ScrutModel.Lemmas.GenerateCram
+import ScrutModel.Lemmas.GenerateUpdate
 import ScrutModel.Props.C11
 /-!
 # C09 — Generated tests pass against the very output they were generated from
@@ -47,9 +48,33 @@ theorem C09_update (doc) (outputs) : for every test k of doc that fails on outpu
 unexpected output; unmatched expectations are dropped. The greedy matcher (C03: complete only for
 deterministic lists) re-run on the new list can take another path: expectations `a* (glob+)`,
 `zzz`, `*2 (glob)` on output `a1`, `a2`, `b2` → update writes `a* (glob+)`, `*2 (glob)`, which
-fails on the same output (`C09_update_fails_on_witness`). What holds without quantifiers among the
-retained expectations is `C03_own_lines`-style determinism; it is not stated here (the `update`
-path belongs to C10's model).
+fails on the same output (`C09_update_fails_on_witness`).
+
+**What is proved for `update`** is the true part. Model: `Gen.generateTestcaseUpd` =
+`Outcome::generate_testcase` for a test WITH expectations (`Ok`: the original texts; `MalformedOutput
+(diff)`: `MatchedExpectation` → original text, `UnexpectedLines` → one generated line each,
+`UnmatchedExpectation` → dropped; `InvalidExitCode`: every line regenerated), for ANY expectations
+(quantified ones too) and any diff; `create`'s `generateTestcase` is its special case "no
+expectations" (`C09_create_is_update_special_case`), so everything above stays a statement about the
+same function. `slots d` is the expectation list written for the diff `d` (`kept ei` = original
+expectation `ei`, `gen li` = generated for line `li`); the text written is exactly the texts of these
+entries (`C09_update_text`). The guard of the theorem is: **no expectation of the test carries a
+quantifier** (`?`, `*`, `+`) -- any kinds (glob, regex, …), any match matrix `mt`. Then, for the real
+matcher's diff `d = diff n m es mt` (whether it has differences or not), the updated list has
+exactly one entry per output line, in line order, entry `k` is a retained expectation that matches
+line `k` or the expectation generated for line `k` (`C09_update_unquantified_entries`; retained
+ones keep their order: `C09_update_keeps_order`), no entry carries a quantifier, and the matcher
+run on the updated list against the same lines reports NO difference
+(`C09_update_unquantified_passes`, by C02's conservation `diff_wf`, `C09_line_roundtrip` and
+`C03_own_lines`). The exit code line is `create`'s (`C09_exit_code_roundtrip`). The
+`InvalidExitCode` branch discards all expectations, so it needs no guard
+(`C09_update_invalid_exit_code`). Quantified retained expectations are exactly what the guard
+excludes, and the witness above shows that it cannot be dropped: there `slots d = [kept 0, kept 2]`
+-- two entries for three lines (`C09_update_witness_slots`).
+Assumption (not in the model): the original text of a retained expectation parses back to the
+expectation it came from (same rule, same quantifiers), so that the updated list's entry `kept ei`
+matches what `mt ei` says -- decided on the real code by the update oracles (real `update` → real
+parser → real `validate`).
 -/
 namespace Scrut.Props.C09
 open Scrut.Utf8 Scrut.Esc Scrut.EscLemmas Scrut.Rules Scrut.Gen Scrut.GenLemmas Scrut.Diff
@@ -225,6 +250,95 @@ theorem C09_markdown_fence (g : List Char) :
     3 ≤ maxBacktickSize g + 1 ∧ ∀ l ∈ lines g, leadingBackticks l < maxBacktickSize g + 1 :=
   fence_longer g
 
+/-! ### `update`: a test with expectations -/
+
+/-- **C09 (one function)**: `generate_testcase` on the outcome `create` builds (`generateTestcase`,
+`createResult`) is `generate_testcase` for a test with expectations (`generateTestcaseUpd`) on the
+outcome `validate` (`updResult`) returns for the EMPTY expectation list, no expected exit code, and
+the real matcher's diff of no expectations against the lines of the output -/
+theorem C09_create_is_update_special_case (m : Mode) (isOther : Char → Bool) (cmd : List Char)
+    (out : List UInt8) (code : Int) (es : Nat → Diff.Exp) (mt : Nat → Nat → Bool) :
+    generateTestcase m isOther cmd (createResult out code) out code =
+      generateTestcaseUpd m isOther cmd []
+        (updResult none (diff 0 (Newline.splitAtNewline out).length es mt) code)
+        (Newline.splitAtNewline out) code :=
+  generateTestcase_create_upd m isOther cmd out code es mt
+
+/-- … and branch by branch, for any result of the old shape -/
+theorem C09_create_is_update_branches (m : Mode) (isOther : Char → Bool) (cmd : List Char)
+    (out : List UInt8) (code : Int) :
+    (∀ lines, generateTestcase m isOther cmd .ok out code =
+      generateTestcaseUpd m isOther cmd [] .ok lines code) ∧
+    (∀ ls, generateTestcase m isOther cmd (.malformed ls) out code =
+      generateTestcaseUpd m isOther cmd [] (.malformed [.unexpected (rangeFrom 0 ls.length)]) ls code) ∧
+    (∀ origs actual, generateTestcase m isOther cmd (.invalidExit actual) out code =
+      generateTestcaseUpd m isOther cmd origs (.invalidExit actual) (Newline.splitAtNewline out) code) :=
+  ⟨fun lines => generateTestcase_ok m isOther cmd out lines code,
+   fun ls => generateTestcase_malformed m isOther cmd out ls code,
+   fun origs actual => generateTestcase_invalidExit m isOther cmd out origs actual code⟩
+
+/-- **C09 (update, text)**: for `MalformedOutput(d)` -- any diff, any expectations, quantified or
+not -- the test body is: the command, the texts of the entries of `slots d` one after the other
+(`kept ei`: the original text of expectation `ei` with a line feed; `gen li`: the line generated for
+output line `li`), and `[code]` iff `code ≠ 0` -/
+theorem C09_update_text (m : Mode) (isOther : Char → Bool) (cmd ex : List Char)
+    (origs : List (List Char)) (lines : List (List UInt8)) (d : List DL) (code : Int)
+    (hex : expression cmd = some ex) :
+    generateTestcaseUpd m isOther cmd origs (.malformed d) lines code =
+      (slotsText m isOther origs lines (slots d)).map (fun b => ex ++ b ++ exitCodeOpt code) := by
+  simp only [generateTestcaseUpd, hex, diffBody_eq_slots]
+
+/-- **C09 (update, entries)**: a test without multiline expectations, any match matrix: the list
+written for the real matcher's diff has exactly one entry per output line, in line order: entry `k`
+is a retained expectation that matches line `k`, or the expectation generated for line `k` -/
+theorem C09_update_unquantified_entries (n m : Nat) (es : Nat → Diff.Exp) (mt : Nat → Nat → Bool)
+    (hq : ∀ i, (es i).multiline = false) :
+    (slots (diff n m es mt)).length = m ∧
+    ∀ k (h : k < (slots (diff n m es mt)).length),
+      (∃ ei, (slots (diff n m es mt))[k] = .kept ei ∧ mt ei k = true) ∨
+      (slots (diff n m es mt))[k] = .gen k :=
+  slots_spec n m es mt hq
+
+/-- **C09 (update, order)**: whatever the quantifiers, the retained expectations are expectations of
+the test, each at most once, in their original order -/
+theorem C09_update_keeps_order (n m : Nat) (es : Nat → Diff.Exp) (mt : Nat → Nat → Bool) :
+    (keptIdx (slots (diff n m es mt))).Pairwise (· < ·) ∧
+    ∀ i ∈ keptIdx (slots (diff n m es mt)), i < n :=
+  keptIdx_sorted n m es mt
+
+/-- **C09 (update passes: output)**, the true part of the statement for `update`: a test with `n`
+expectations of ANY kinds, NONE of them quantified (`hq`), `mt i j` = "expectation `i` matches line
+`j`" arbitrary; any output. Let `d` be the real matcher's diff against the lines of the output and
+`sl = slots d` the expectation list `update` writes. Then no entry of `sl` carries a quantifier
+(`updQuant`: retained ones by `hq`, generated ones by `C09_line_roundtrip`), and the matcher run on
+`sl` -- entry `k` matches line `j` iff `updMatrix … k j`: a retained expectation as `mt` says, a
+generated one as its parsed rule says -- against the same lines reports no difference. -/
+theorem C09_update_unquantified_passes (P : Params) (hP : StdParams P) (m : Mode) (isOther : Char → Bool)
+    (hC : m = .unicode → AsciiContract isOther) (out : List UInt8)
+    (n : Nat) (es : Nat → Diff.Exp) (mt : Nat → Nat → Bool) (hq : ∀ i, es i = ⟨false, false⟩) :
+    let lines := Newline.splitAtNewline out
+    let sl := slots (diff n lines.length es mt)
+    (∀ k, updQuant es (genQuant P m isOther lines) sl k = ⟨false, false⟩) ∧
+    hasDiff (diff sl.length lines.length (updQuant es (genQuant P m isOther lines) sl)
+      (updMatrix mt (matchMatrix P m isOther lines) sl)) = false :=
+  update_no_diff n _ es _ mt _ hq (genQuant_none hP m isOther hC out)
+    (fun i hi => matchMatrix_diag hP m isOther hC out i hi)
+
+/-- **C09 (update, changed exit code)**: for `InvalidExitCode` all expectations are discarded and
+every line is regenerated: whatever the expectations were (quantified or not), the text is the one
+`create` writes for this output and the actual exit code -- for which `C09_create_passes`,
+`C09_exit_code_roundtrip` and the end-to-end theorems hold --, and the regenerated list passes -/
+theorem C09_update_invalid_exit_code (P : Params) (hP : StdParams P) (m : Mode) (isOther : Char → Bool)
+    (hC : m = .unicode → AsciiContract isOther) (cmd : List Char) (origs : List (List Char))
+    (out : List UInt8) (actual code : Int) :
+    generateTestcaseUpd m isOther cmd origs (.invalidExit actual) (Newline.splitAtNewline out) code =
+      generateTestcase m isOther cmd (createResult out actual) out actual ∧
+    hasDiff (diff (Newline.splitAtNewline out).length (Newline.splitAtNewline out).length
+      (genQuant P m isOther (Newline.splitAtNewline out))
+      (matchMatrix P m isOther (Newline.splitAtNewline out))) = false :=
+  ⟨generateTestcaseUpd_invalidExit_create m isOther cmd origs out actual code,
+   create_no_diff hP m isOther hC out⟩
+
 /-! ### `update`: the known counterexample -/
 
 /-- quantifiers of the list `update` writes for the witness: `a* (glob+)`, `*2 (glob)` -/
@@ -238,6 +352,24 @@ def updMt : Nat → Nat → Bool := fun e l => (e, l) ∈ [(0, 0), (0, 1), (1, 1
 (the run of `a*` ends at `a2` in favour of `*2`, `b2` is left over) -/
 theorem C09_update_fails_on_witness : hasDiff (diff 2 3 updEs updMt) = true := by
   simp [diff, loop, rangeFrom, unmatchedOf, hasDiff, updEs, updMt]
+
+/-- quantifiers of the test of the witness: `a* (glob+)`, `zzz`, `*2 (glob)` -/
+def witEs : Nat → Diff.Exp := fun i => if i = 0 then ⟨false, true⟩ else ⟨false, false⟩
+
+/-- which of them matches which of the lines `a1`, `a2`, `b2` -/
+def witMt : Nat → Nat → Bool := fun e l => (e, l) ∈ [(0, 0), (0, 1), (2, 1), (2, 2)]
+
+/-- the witness in terms of the model: the diff is `a*` ← `a1 a2`, `zzz` unmatched, `*2` ← `b2`; the
+list written has TWO entries for three lines (a multiline expectation holds two of them), and its
+quantifiers and match matrix are `updEs`, `updMt` of `C09_update_fails_on_witness` -/
+theorem C09_update_witness_slots :
+    diff 3 3 witEs witMt = [.matched 0 [0, 1], .unmatched 1, .matched 2 [2]] ∧
+    slots (diff 3 3 witEs witMt) = [.kept 0, .kept 2] ∧
+    (∀ k, k < 2 → updQuant witEs (fun _ => ⟨false, false⟩) [.kept 0, .kept 2] k = updEs k) ∧
+    (∀ k, k < 2 → ∀ j, j < 3 → updMatrix witMt (fun _ _ => false) [.kept 0, .kept 2] k j = updMt k j) := by
+  have hd : diff 3 3 witEs witMt = [.matched 0 [0, 1], .unmatched 1, .matched 2 [2]] := by
+    simp [diff, loop, rangeFrom, unmatchedOf, findFrom, witEs, witMt, List.range, List.range.loop]
+  refine ⟨hd, by rw [hd]; rfl, by decide, by decide⟩
 
 /-! ### non-vacuity -/
 
@@ -276,5 +408,25 @@ example :
     expectationLine .unicode Scrut.Props.C11.ctrlOnly [62, 32, 97, 92, 98, 10] =
       some ['\\', 'x', '3', 'e', ' ', 'a', '\\', '\\', 'b', ' ', '(', 'e', 's', 'c', 'a', 'p', 'e', 'd', ')'] := by
   decide
+
+/-- `update`, unquantified: the doc example of `src/diff.rs` (`foo1`, `bar`, `baz` against `bla foo1
+foo2 foo3 bar`): the list written is generated, `foo1`, generated, generated, `bar` (`baz` dropped) -/
+example : slots (diff 3 5 exEs exMt) = [.gen 0, .kept 0, .gen 2, .gen 3, .kept 1] := by
+  have : diff 3 5 exEs exMt =
+      [.unexpected [0], .matched 0 [1], .unexpected [2, 3], .matched 1 [4], .unmatched 2] := by
+    simp [diff, loop, exEs, exMt, rangeFrom, unmatchedOf, findFrom, List.range, List.range.loop]
+  rw [this]; rfl
+
+/-- the text written for it: expectations `foo1`, `bar`, `baz`, output `bla⏎ foo1⏎ [1]⏎ x⏎ bar⏎`,
+exit code 2 -/
+example :
+    generateTestcaseUpd .ascii Scrut.Props.C11.ctrlOnly ['c'] [['f', 'o', 'o', '1'], ['b', 'a', 'r'], ['b', 'a', 'z']]
+      (.malformed [.unexpected [0], .matched 0 [1], .unexpected [2, 3], .matched 1 [4], .unmatched 2])
+      [[98, 108, 97, 10], [102, 111, 111, 49, 10], [91, 49, 93, 10], [120, 10], [98, 97, 114, 10]] 2 =
+    some ("$ c\nbla\nfoo1\n[1] (equal)\nx\nbar\n[2]\n".toList) := by
+  decide
+
+/-- the hypothesis `hq` of `C09_update_unquantified_passes` holds for `exEs` -/
+example : ∀ i, exEs i = ⟨false, false⟩ := fun _ => rfl
 
 end Scrut.Props.C09
